@@ -37,7 +37,8 @@ def _verify_one(args):
         c = REGISTRY[key]
         summaries = {k: x for k, x in REGISTRY.items() if x.summarize}
         rep = V.verify_function(pkg, c, summaries, make_schema(),
-                                inline_only=set(inline_only))
+                                inline_only=set(inline_only) |
+                                set(getattr(c, "inline", ())))
         from pyvc import solve
         return key, rep, dict(solve.STATS), None
     except Exception:
